@@ -14,11 +14,14 @@
 //           -> fin= y=.. calls= selfpairs=
 //   rp      N= D= d= pts= shift= [gauss=..] [srand=]  -> P= mean= y= y2= ng= gex= m1..m4
 //   fa      N= D= d= T= eps= pts= shift= [a0=..] [srand=] -> a0= y= y2=
+//   grand   n= [rs=scripted rand() prefix] srand=  -> the real gaussian_random() on the interposed rand(): values, draws
+//   urand / uidx  n= [upper=] [rs=] srand=         -> the real uniform_random() / uniform_random_index_bounded()
 //   gauss   n= srand=  -> moments of tapkee::gaussian_random() (natural build)
 //   unifnat n= srand=  -> min/max/mean of tapkee::uniform_random() (natural build)
 #include <tapkee/defines/eigen3.hpp>
 
 #include <algorithm>
+#include <cstdint>
 #include <cstdlib>
 #include <deque>
 #include <random>
@@ -82,6 +85,66 @@ inline double next_gauss()
     return gauss().next();
 }
 } // namespace vs
+
+#ifndef C19_STREAMS
+// ---- natural build: the C library's rand()/srand() are replaced by the harness (the executable's definitions take
+// precedence), so that the library's OWN uniform_random() / uniform_random_index() / gaussian_random() and Eigen's
+// Random() run on a replayable stream: a scripted prefix from the case line (boundary draws 0, RAND_MAX, 2^30, ...)
+// followed by a seeded 64-bit generator.  Every value handed out is logged.
+namespace vr
+{
+inline uint64_t& state()
+{
+    static uint64_t s = 0x853c49e6748fea9bULL;
+    return s;
+}
+inline std::deque<long>& script()
+{
+    static std::deque<long> q;
+    return q;
+}
+inline std::vector<int>& log()
+{
+    static std::vector<int> v;
+    return v;
+}
+inline void arm(const std::vector<long>& v)
+{
+    script().assign(v.begin(), v.end());
+    log().clear();
+}
+inline int next()
+{
+    int r;
+    if (!script().empty())
+    {
+        r = (int)script().front();
+        script().pop_front();
+    }
+    else
+    {
+        uint64_t& s = state(); // splitmix64
+        s += 0x9E3779B97F4A7C15ULL;
+        uint64_t z = s;
+        z = (z ^ (z >> 30)) * 0xBF58476D1CE4E5B9ULL;
+        z = (z ^ (z >> 27)) * 0x94D049BB133111EBULL;
+        z ^= (z >> 31);
+        r = (int)(z >> 33); // 31 bits: 0 .. RAND_MAX
+    }
+    if (log().size() < (1u << 22))
+        log().push_back(r);
+    return r;
+}
+} // namespace vr
+extern "C" int rand(void) noexcept
+{
+    return vr::next();
+}
+extern "C" void srand(unsigned seed) noexcept
+{
+    vr::state() = 0x9E3779B97F4A7C15ULL * (uint64_t)(seed + 1u);
+}
+#endif
 
 #ifdef C19_STREAMS
 #define CUSTOM_UNIFORM_RANDOM_FUNCTION vs::next_unif()
@@ -503,6 +566,9 @@ static void op_rp(std::map<std::string, std::string>& f)
 #endif
             if (f.count("srand"))
                 std::srand((unsigned)std::stoul(f["srand"]));
+#ifndef C19_STREAMS
+            vr::arm(f.count("rs") ? vh::parse_ints(f["rs"]) : std::vector<long>());
+#endif
             PointsFeatures fc{r == 0 ? &X : &X2};
             o[r] = run_method<tapkee_internal::RandomProjectionImplementation>(
                 idx.begin(), idx.end(), NoKernel(), NoDistance(), fc, (target_dimension = d, max_iteration = 100));
@@ -632,6 +698,67 @@ static void op_gauss(std::map<std::string, std::string>& f)
     std::cout << out.str() << std::endl;
 }
 
+#ifndef C19_STREAMS
+// grand n= [rs=] srand= : the REAL tapkee::gaussian_random() on the interposed rand() stream.  Per variate: the value,
+// the cumulative number of rand() calls, and — recomputed from the two draws consumed last (the accepted pair of the
+// polar method) — the radius and the values std::log / std::sqrt return for it (oracle values for the model).
+static void op_grand(std::map<std::string, std::string>& f)
+{
+    size_t n = (size_t)std::stoul(f["n"]);
+    std::srand((unsigned)std::stoul(f["srand"]));
+    vr::arm(f.count("rs") ? vh::parse_ints(f["rs"]) : std::vector<long>());
+    std::ostringstream g, calls, rad, L, S;
+    bool fin = true;
+    for (size_t i = 0; i < n; ++i)
+    {
+        double v = tapkee::gaussian_random();
+        fin = fin && std::isfinite(v);
+        size_t c = vr::log().size();
+        double x = 0, y = 0, radius = 0, l = 0, sq = 0;
+        if (c >= 2)
+        {
+            x = 2 * (vr::log()[c - 2] / ((double)RAND_MAX + 1)) - 1;
+            y = 2 * (vr::log()[c - 1] / ((double)RAND_MAX + 1)) - 1;
+            radius = (x * x) + (y * y);
+            l = std::log(radius);
+            sq = std::sqrt(-2 * l / radius);
+        }
+        const char* sep = i ? "," : "";
+        g << sep << vh::num(v);
+        calls << sep << c;
+        rad << sep << vh::num(radius);
+        L << sep << vh::num(l);
+        S << sep << vh::num(sq);
+    }
+    std::ostringstream used;
+    for (size_t i = 0; i < vr::log().size(); ++i)
+        used << (i ? "," : "") << vr::log()[i];
+    std::cout << "ok fin=" << (fin ? 1 : 0) << " g=" << g.str() << " calls=" << calls.str() << " rad=" << rad.str()
+              << " L=" << L.str() << " S=" << S.str() << " used=" << used.str() << std::endl;
+}
+
+// urand n= [rs=] srand= : the REAL tapkee::uniform_random();  uidx upper= n= [rs=] srand= : uniform_random_index_bounded
+static void op_urand(std::map<std::string, std::string>& f, bool index)
+{
+    size_t n = (size_t)std::stoul(f["n"]);
+    std::srand((unsigned)std::stoul(f["srand"]));
+    vr::arm(f.count("rs") ? vh::parse_ints(f["rs"]) : std::vector<long>());
+    std::ostringstream u;
+    int upper = index ? std::stoi(f["upper"]) : 0;
+    for (size_t i = 0; i < n; ++i)
+    {
+        if (index)
+            u << (i ? "," : "") << tapkee::uniform_random_index_bounded(upper);
+        else
+            u << (i ? "," : "") << vh::num(tapkee::uniform_random());
+    }
+    std::ostringstream used;
+    for (size_t i = 0; i < vr::log().size(); ++i)
+        used << (i ? "," : "") << vr::log()[i];
+    std::cout << "ok u=" << u.str() << " used=" << used.str() << std::endl;
+}
+#endif
+
 static void op_unifnat(std::map<std::string, std::string>& f)
 {
     size_t n = (size_t)std::stoul(f["n"]);
@@ -668,6 +795,12 @@ int main()
 #ifndef C19_STREAMS
         else if (op == "speapi")
             op_speapi(f);
+        else if (op == "grand")
+            op_grand(f);
+        else if (op == "urand")
+            op_urand(f, false);
+        else if (op == "uidx")
+            op_urand(f, true);
 #endif
         else if (op == "rp")
             op_rp(f);
